@@ -375,10 +375,14 @@ def rule_header_source(ctx, rule='C11.HEADERSRC'):
         for x in f.own_nodes():
             if isinstance(x, ast.Attribute) and x.attr == 'hsub_results' and isinstance(x.ctx, ast.Load):
                 readers.append((f, x))
-    allowed = {'ElectrumX.subscribe_headers_result', 'SessionManager._refresh_hsub_results'}
-    bad = [f'{ctx.loc(f, x)} {f.qual}' for f, x in readers if f.qual not in allowed]
-    ctx.check(not bad and bool(readers), rule, 'electrumx/server/session.py :: hsub_results :: read by the subscription answer only',
-              'the cached subscription header is read only to answer headers.subscribe / header notifications',
-              f'the cached subscription header is also read by {bad}: after a reorganisation it still holds the orphaned block\'s header '
-              'until the next height change is notified, so a header (proof) served from it does not belong to the current chain')
+    # the header requests and everything they call
+    from .c06 import _task_closure
+    served = {}
+    for qn in ('ElectrumX.block_header', 'ElectrumX.block_headers', 'ElectrumX._merkle_proof'):
+        served.update(_task_closure(ctx, ctx.func('sess', qn)))
+    bad = [f'{ctx.loc(f, x)} {f.qual}' for f, x in readers if f.key in served]
+    ctx.check(not bad and bool(readers), rule, 'electrumx/server/session.py :: hsub_results :: not a source of requested headers',
+              'no header request (block.header / block.headers) is answered from the cached subscription header',
+              f'a header request reads the cached subscription header ({bad}): after a reorganisation it still holds the orphaned block\'s '
+              'header until the next height change is notified, so the header served does not belong to the chain the proof is for')
     return max(len(readers), 1)
